@@ -5,6 +5,7 @@
 -/
 import Proofs.C14
 import Model.HttpServer
+import Proofs.Lemmas.HttpServerStream
 
 namespace HttpServer
 open Prim
@@ -182,3 +183,31 @@ example : (handleStream ⟨POST, "application/x-httpgrpc-proto+v1", true, true, 
     = [.data, .data, .trailer] := by decide
 
 end HttpServer
+
+namespace HttpServerStream
+open InprocStream (HErr Reason Res codeOf)
+
+/-- **Shape of every streaming reply, in every reachable state** (also with failed writes and broken
+    connections): nothing, or the header block followed by data frames and at most one trailer
+    frame, which is last. -/
+theorem C11_http_server_reply_shape (cs : Bool) (req : List ReqItem) (acts : List Act) (s : St) (rs : List Res)
+    (h : run (init cs req) acts = some (s, rs)) : wellFormed s.wire = true :=
+  (run_facts req acts (init cs req) s rs (inv_init cs req) h).1.wf
+
+/-- **…and a reply over an intact connection ends with exactly one trailer frame** -/
+theorem C11_http_server_reply_ends_with_trailer (cs : Bool) (req : List ReqItem) (acts : List Act) (s1 : St) (rs : List Res)
+    (e : Option HErr) (s : St) (r : Res) (h1 : run (init cs req) acts = some (s1, rs)) (h2 : step s1 (.ret e) = some (s, r))
+    (hw : s.writeFailed = false) (hc : s.connBroken = false) :
+    ∃ h fs c md, allData fs = true ∧ s.wire = .head h :: (fs ++ [.trailer c md]) := by
+  obtain ⟨fs, hfs, hwire⟩ := reply_complete cs req acts s1 rs e s r h1 h2 hw hc
+  exact ⟨_, fs, _, _, hfs, hwire⟩
+
+/-- nothing is written after the handler has returned -/
+theorem C11_http_server_nothing_after_return (s : St) (a : Act) (s' : St) (r : Res) (hf : s.finished = true)
+    (h : step s a = some (s', r)) : s'.wire = s.wire := by
+  unfold step at h
+  simp only [hf, if_true] at h
+  cases a <;> simp [stepFinished] at h
+  obtain ⟨rfl, rfl⟩ := h; rfl
+
+end HttpServerStream
